@@ -581,8 +581,22 @@ func (option *Option) isValidValue(arg string) error {
 	if validator := option.isValueValidator(); validator != nil {
 		return validator.IsValidValue(arg)
 	}
-	if argumentIsOption(arg) && !(option.isSignedNumber() && len(arg) > 1 && arg[0] == '-' && arg[1] >= '0' && arg[1] <= '9') {
+	if argumentIsOption(arg) && !(option.isSignedNumber() && isNegativeNumber(arg)) {
 		return fmt.Errorf("expected argument for flag `%s', but got option `%s'", option, arg)
 	}
 	return nil
+}
+
+// isNegativeNumber reports whether arg is written like a negative number: a
+// minus sign followed by a digit, or by a decimal point and a digit (-.5).
+func isNegativeNumber(arg string) bool {
+	if len(arg) < 2 || arg[0] != '-' {
+		return false
+	}
+
+	if arg[1] >= '0' && arg[1] <= '9' {
+		return true
+	}
+
+	return arg[1] == '.' && len(arg) > 2 && arg[2] >= '0' && arg[2] <= '9'
 }
